@@ -1281,7 +1281,10 @@ dns_msg_rr_get_data(dns_hdr_p hdr, size_t msg_size, size_t offset, uint8_t *name
 
 	dns_rr = (dns_rr_p)((((size_t)hdr) + offset + name_size) - sizeof(uint8_t*));
 	rr_size_tm = (name_size + (sizeof(dns_rr_t) - (sizeof(uint8_t*) +
-	    sizeof(uint8_t))) + ntohs(dns_rr->rdlength));
+	    sizeof(uint8_t))));
+	if ((offset + rr_size_tm) > msg_size)
+		return (EBADMSG); /* Out of buf range. */
+	rr_size_tm += ntohs(dns_rr->rdlength);
 	if ((offset + rr_size_tm) > msg_size)
 		return (EBADMSG); /* Out of buf range. */
 
